@@ -409,6 +409,27 @@ def gen_loop(rng: random.Random, *, max_n: int = 6) -> dict:
             "loop": {"family": family, "k": k, "n": n, "x0": x0, "iters": iters, "defaultOpen": default_open, "separateEmitter": separate_emitter}}
 
 
+def gen_fed_cascade(rng: random.Random) -> dict:
+    """A node that first runs on a parameter default and again when a longer upstream branch delivers that parameter, followed by a
+    chain of 2-4 downstream nodes (and a side consumer): every one of them has to be re-evaluated with the second value."""
+    nodes: list[dict] = []
+    L = rng.randint(1, 3)
+    prev = "x"
+    for j in range(L):
+        out = "f" if j == L - 1 else f"m{j}"
+        nodes.append(_fn_node(f"c{j}", [[prev, None]], [out], {"b": "sum", "k": j + 1}))
+        prev = out
+    nodes.append(_fn_node("apply", [["y", None], ["f", {"d": rng.randint(0, 3)}]], ["s0"], {"b": "sum", "k": 0}))
+    D = rng.randint(2, 4)
+    for j in range(D):
+        body = {"b": "sum", "k": j} if rng.random() < 0.6 else {"b": "tag", "t": f"d{j}"}
+        nodes.append(_fn_node(f"d{j}", [[f"s{j}", None]], [f"s{j + 1}"], body))
+    if rng.random() < 0.6:
+        nodes.append(_fn_node("side", [[f"s{rng.randint(1, D)}", None], ["x", None]], ["sd"], {"b": "tag", "t": "side"}))
+    rng.shuffle(nodes)
+    return {"program": [{"name": "g0", "nodes": nodes, "bound": []}], "values": [["x", rng.randint(0, 4)], ["y", rng.randint(0, 4)]]}
+
+
 # ---------------------------------------------------------------- configuration variants
 
 def all_fn_nodes(program: list[dict]) -> list[tuple[int, int]]:
